@@ -31,6 +31,7 @@ def hyp(case, ctx):
 
 def known_match(failure, case, hv):
     if str(failure).startswith('ABS '): return None       # a step that did not wait for its provider is none of the known input classes
+    if str(failure).startswith('ABS-LATER'): return 'F11' if 'weak' in hv else None
     if 'init_on_event_source' in hv: return 'F17'
     if 'shared_init_slot' in hv: return 'F10'
     if 'weak' in hv: return 'F11'
